@@ -94,3 +94,10 @@ def ball(G, centers, k):
     for _ in range(k):
         S = S | {w for n in S for w in G.neighbors(n)}
     return S
+
+
+def float_or_none(v):
+    try:
+        return float(v)
+    except (TypeError, ValueError):
+        return None
